@@ -211,7 +211,9 @@ static void x86_func_spill(x86::Compiler& cc, unsigned k, ErrAcc& E, Label* self
   fn->set_arg(0, v[0]);
   fn->set_arg(1, v[1]);
   fn->set_arg(2, p);
-  x86::Mem stk = cc.new_stack(64, 16, "stk");
+  // P4's slot is over-aligned (dynamic stack alignment in its frame); the same function body in P6/P9 keeps the natural
+  // alignment, so anything the allocator's per-function state keeps from an earlier function shows in a later frame
+  x86::Mem stk = cc.new_stack(64, (k == 4 || k == 6) ? 64 : 16, "stk");   // k == 6: the FIRST of P6's three functions
   x86::Mem c0 = cc.new_int32_const(ConstPoolScope::kLocal, int32_t(1000 + k));
   x86::Mem c1 = cc.new_double_const(gscope, 1.5 + k);
   uint8_t c16v[16]; for (int i = 0; i < 16; i++) c16v[i] = uint8_t(0x30 + i + k);
